@@ -195,7 +195,10 @@ def type_of(name):
     return getattr(plugins, name)
 
 
-def build(case):
+def build(case, attach=True):
+    """attach=False: the registry points are declared but no implementation is bound to them yet (no
+    implementing SpecSet subclass is created); the caller binds implementations later through
+    bind_impl() - what loading a spec package late does.  b.reg_cls is the declaring class."""
     from insights.core import dr
     from insights.core.plugins import make_pass
     from insights.core.spec_factory import RegistryPoint, SpecSet
@@ -297,13 +300,24 @@ def build(case):
         else:
             deco = ctype(*pos)
         comps.append(deco(fn))
-    if impl_attach:
+    b.reg_cls = reg_cls
+    if impl_attach and attach:
         dct = dict((rpname, comps[j]) for rpname, j in impl_attach.items())
         dct["__module__"] = MODNAME
         impl_cls = type("Impl%d" % uid, (reg_cls,), dct)
         b.extra.append(impl_cls)
     b.index = dict((c, i) for i, c in enumerate(comps))
     return b
+
+
+def bind_impl(b, rp, impl, tag):
+    """Registers the datasource of node `impl` as an implementation of the registry point of node `rp`
+    by defining a SpecSet subclass of the declaring class (the only public way), after build(attach=False)
+    or in addition to what build() attached."""
+    name = b.comps[rp].__name__
+    cls = type("Late%s" % (tag,), (b.reg_cls,), {name: b.comps[impl], "__module__": MODNAME})
+    b.extra.append(cls)
+    return cls
 
 
 def re_generated(name):
